@@ -63,9 +63,15 @@ def main(tier):
         if form == "include":
             used |= {"INCLUDE"}
         bans = [sorted(tx["ban"]), [singles[(n + seed()) % 30]]]
-        if n % 5 == 0:
+        if n % 3 == 0:
             # every kind the project uses, banned alone
             bans += [[k] for k in sorted(used) if [k] not in bans and k != "JSIGHT"]
+        # a kind that occurs under one host only (here: Description only inside TAG blocks) is handled by that host's code
+        only_tag_desc = any(b["t"] == "tag" and b["desc"] for b in d) and not any(
+            (b["t"] == "info" and b["desc"]) or (b["t"] == "method" and b["m"]["desc"]) or
+            (b["t"] in ("url", "rpc") and any(mm["desc"] for mm in b["methods"])) for b in d)
+        if only_tag_desc and form == "plain" and ["Description"] not in bans:
+            bans.append(["Description"])
         if form == "macro_unused":
             bans.append(["PASTE"])             # banning what does not occur changes nothing, whatever else is defined
         ff = {"main.jst": b64(text)}
